@@ -130,6 +130,18 @@ def run(prop, cfg, tier, seed):
         if tool_fail_total > len(r.get("failures") or []):
             tool_fail += [None] * (tool_fail_total - len(r["failures"]))
 
+    # ---- the front-end through the model: the tables the working tree's pigeon generates for grammar/pigeon.peg, run by
+    # the Lean runtime model on grammar texts, against the real tool's verdict and diagnostic (pv/front_model.py)
+    if cfg.get("front_model"):
+        from . import front_model
+        nq_f, nt_f = cfg["front_model"]
+        fviol, fcov = front_model.run(prop, tier, seed, nq_f, nt_f)
+        tool_reports["front-model"] = fcov
+        for (kind, d, _) in fviol:
+            d = dict(d)
+            d.update(tool="front-model", kind=kind)
+            tool_fail.append(d)
+
     # ---- the analysis the runtime relies on (C08): the builder's leader marks must cover every cycle of its first graph
     if cfg.get("mid_leaders"):
         from . import mid_check
